@@ -18,7 +18,8 @@ import (
 func runCase(c chainsim.Case, rep chainsim.Reporter, scratch string) {
 	rm := &chainsim.RegistryMonitor{Rep: rep}
 	rec := &chainsim.Recorder{TxSubs: []chainsim.TxMonitor{rm}}
-	h, err := chainsim.NewHistory(chainsim.HistoryConfig{Seed: c.Seed, Profile: c.Profile, Blocks: c.Blocks}, rm, rec)
+	km := &chainsim.KeyManagerMonitor{Rep: rep, Sig: "c17/keymanager"}
+	h, err := chainsim.NewHistory(chainsim.HistoryConfig{Seed: c.Seed, Profile: c.Profile, Blocks: c.Blocks}, rm, rec, km)
 	if err != nil {
 		rep.Inconclusive("setup failed: " + err.Error())
 		return
@@ -27,6 +28,7 @@ func runCase(c chainsim.Case, rep chainsim.Reporter, scratch string) {
 	chainsim.ReportCommon(h, rep)
 	rep.Count("registry_state_checks", int64(rm.Checked))
 	rep.Count("node_record_updates_seen", int64(rm.NodeUpdates))
+	rep.Count("churp_stake_claims_implied_max", int64(rm.ChurpClaims))
 	rot := h.Gen.Stats["registry.RegisterNode/valid/ok"]
 	for _, p := range h.Panics {
 		rep.Inconclusive("history ended by a panic (see C10): " + p.Error())
@@ -56,10 +58,12 @@ func main() {
 		ID:    "C17",
 		Level: "exploration",
 		Rule: "each case is one generated block history biased to the registry: entity (re-)registration with changing node lists, deregistration, node registration/renewal, rotation and exchange of P2P/TLS/VRF keys among themselves, stolen sub-keys, missing/extra descriptor signatures, wrong transaction signers, expiry and re-registration after expiry; " +
-			"after every block: every node found under each current key and its consensus address, no key shared by two nodes, nodes-by-entity index = records, no node/runtime without entity, stake claims = exactly those implied by registered entities/nodes/runtimes; per transaction: entity/node records change only in transactions signed by that entity/node, stored node descriptors carry valid signatures of all their keys and are listed by their entity; " +
+			"after every block: every node found under each current key and its consensus address, no key shared by two nodes, nodes-by-entity index = records, no node/runtime without entity, stake claims = exactly those implied by registered entities/nodes/runtimes and (histories with a key manager) stored CHURP instances; per transaction: entity/node records change only in transactions signed by that entity/node, stored node descriptors carry valid signatures of all their keys and are listed by their entity; " +
 			"non-trivial = history with >=10 successful node registrations, >=1 successful key rotation/swap and >=3 epoch transitions",
 		Cases: func(r *evid.Run) []chainsim.Case {
-			return chainsim.StdCases(r.Seed, r.Pick(192, 2400), r.Pick(60, 120), []string{"registry", "runtime", "registry", "election", "default"})
+			cs := chainsim.StdCases(r.Seed, r.Pick(192, 2400), r.Pick(60, 120), []string{"registry", "runtime", "registry", "election", "default"})
+			// Key manager runtime, key manager nodes and CHURP stake claims.
+			return chainsim.WithExtraCases(cs, r.Seed, r.Pick(16, 200), "keymanager")
 		},
 		RunCase: runCase,
 		Floor:   10,
